@@ -3782,8 +3782,15 @@ class NetCDFWrite(IOWrite):
                 # ----------------------------------------------------
                 index = self.implementation.get_index(f)
                 index_ncdim = self.implementation.nc_get_dimension(
-                    index, default="sample"
+                    index, default=None
                 )
+                if index_ncdim is None:
+                    # The netCDF dimension spanned by the index
+                    # variable is the sample dimension
+                    index_ncdim = self.implementation.nc_get_sample_dimension(
+                        index, default="sample"
+                    )
+
                 if not g["group"]:
                     # A flat file has been requested, so strip off any
                     # group structure from the name.
